@@ -184,7 +184,12 @@ def trim_matches(ctx, prog):
         ent = sym.paths_of(b, prog)
         A2 = ("len", ("p", 2))
         rows = [Row([eq(A2, Int(0))], lambda path, case: None if path.value == ("p", 1) else "empty pattern must return the input unchanged, got %s" % show(path.value), name="empty pattern"),
-                Row([ne(A2, Int(0))], None, kind="cut", name="non-empty pattern: enter the loop")]
+                Row([ne(A2, Int(0)), table.le(A2, ("len", ("p", 1)))], None, kind="cut", name="non-empty pattern: enter the loop"),
+                # a pattern longer than the input cannot match even once: entering the loop or returning the input at once are the same
+                Row([ne(A2, Int(0)), table.lt(("len", ("p", 1)), A2)],
+                    lambda path, case: None if path.kind == "cut" or (path.kind == "return" and path.value == ("p", 1)) else
+                    "a pattern longer than the input must leave the input unchanged, got %s" % (show(path.value) if isinstance(path.value, tuple) else path.value),
+                    kind="any", name="pattern longer than the input")]
         _cmp(ctx, "TAB-TRIMM", prog, name + "|entry", b, ent, rows)
         op = sym.loop_relation(b, outer, prog)
         ip = sym.loop_relation(b, inner, prog)
